@@ -572,3 +572,42 @@ TABLES = {'C01': [c01], 'C02': [c02], 'C03': [c03], 'C04': [c04, c04_text_leaves
 def run(report, env):
     for t in TABLES.get(report.prop, []):
         t(report, env)
+
+
+class _Collector(object):
+    """ a report that only collects (for replays) """
+    def __init__(self, prop):
+        self.prop = prop
+        self.bounded = []
+        self.violations = []
+        self.known = []
+
+    def add_record(self, *a, **k):
+        pass
+
+
+def replay(rp, prop, env):
+    """ replay of a violation reported by one of the tables: re-runs that table on the tree under check; 1 if it still fails, 0 if not,
+        None if the replay file does not belong to a table """
+    names = {}
+    ob = rp.get('obligation') or ''
+    if not any(ob.startswith(prop + '.') or ob.startswith('class-level-object') or ob.startswith('module-level-synchronisation') or ob.startswith(prop + '-')
+               for _ in [0]):
+        return None
+    for t in TABLES.get(prop, []):
+        c = _Collector(prop)
+        try:
+            t(c, env)
+        except Exception as ex:
+            print('table %s could not be re-run: %r' % (t.__name__, ex))
+            continue
+        hit = [b for b in c.bounded if b['function'] == ob]
+        if hit or any(ob in v['what'] for v in c.violations):
+            bad = [v for v in c.violations if v['what'].startswith(ob) or ob in v['what']]
+            if bad:
+                print('replayed on the tree under check (%s): %s' % (t.__name__, bad[0]['what']))
+                print('VIOLATION property=%s replay=(this file)' % prop)
+                return 1
+            print('replayed on the tree under check (%s): the table passes (%d cases)' % (t.__name__, hit[0]['cases'] if hit else 0))
+            return 0
+    return None
